@@ -77,6 +77,8 @@ func (j *jsonWriter) Bytes() []byte {
 // Clear implements writer.
 func (j *jsonWriter) Clear() {
 	j.buf.Reset()
+	// An abandoned document may have left the writer inside a structure.
+	j.indent = 0
 }
 
 // Integer implements writer.
